@@ -32,6 +32,16 @@ GArray *g_array_sized_new(gboolean zero_terminated, gboolean clear_, guint eleme
 	return (GArray *)a;
 }
 #define VP_GLIB_NO_GARRAY_APPEND
+/* typed single-element append (units may redirect GLib's g_array_append_val macro here): constant element size */
+#define VP_GARRAY_APPEND1(a, v) vp_garray_append1((a), &(v), sizeof(v))
+GArray *vp_garray_append1(GArray *array, const void *src, size_t n) {
+	vp_garray *a = (vp_garray *)array;
+	__CPROVER_assert(n == a->elt_size, "glib.g_array_append_val: element size of the array");
+	__CPROVER_assume(a->len < a->cap);
+	memcpy(a->data + (size_t)a->len * n, src, n);
+	a->len += 1;
+	return array;
+}
 GArray *g_array_append_vals(GArray *array, gconstpointer data, guint len) {
 	vp_garray *a = (vp_garray *)array;
 	__CPROVER_assume(len <= a->cap - a->len);
@@ -91,6 +101,20 @@ gchar *g_array_free(GArray *array, gboolean free_segment) {
 }
 
 /* ---------------- GString (concrete) ---------------- */
+#ifdef VP_STR_PREFIX
+/* closed-world string abstraction of the parser units: copies keep only the first VP_STR_PREFIX characters (the unit's
+ * generator checks that every string that can occur is identified by that prefix, so equality tests are exact) */
+GString *g_string_new(const gchar *init) {
+	GString *s = malloc(sizeof(GString));
+	__CPROVER_assume(s != NULL);
+	s->str = malloc(VP_STR_PREFIX + 1);
+	__CPROVER_assume(s->str != NULL);
+	size_t n = 0;
+	if (init != NULL) for (unsigned vp_k = 0; vp_k < VP_STR_PREFIX; vp_k++) { if (init[vp_k] == 0) break; s->str[vp_k] = init[vp_k]; n++; }
+	s->str[n] = 0; s->len = n; s->allocated_len = n + 1;
+	return s;
+}
+#else
 GString *g_string_new(const gchar *init) {
 	GString *s = malloc(sizeof(GString));
 	__CPROVER_assume(s != NULL);
@@ -101,6 +125,7 @@ GString *g_string_new(const gchar *init) {
 	s->str[n] = 0; s->len = n; s->allocated_len = n + 1;
 	return s;
 }
+#endif
 gchar *g_string_free(GString *string, gboolean free_segment) {
 	gchar *d = string->str;
 	if (free_segment) { free(d); d = NULL; }
